@@ -101,7 +101,7 @@ func slotMsgs(s slotInfo) []reflect.Value {
 	var out []reflect.Value
 	switch {
 	case s.byVal:
-		out = append(out, v)
+		out = append(out, reflect.ValueOf(v.Interface())) // a copy, not an alias of the File's field
 	case v.Kind() == reflect.Ptr:
 		if !v.IsNil() {
 			out = append(out, v.Elem())
@@ -145,7 +145,7 @@ func validHeader() fit.Header { return fit.NewHeader(fit.V20, true) }
 func genRoutingData() *coqFile {
 	c := &coqFile{name: "RoutingData.v"}
 	c.p(genHeader)
-	c.p("From Coq Require Import NArith ZArith List String.\nFrom FitV Require Import Model.Values.\nImport ListNotations.\nOpen Scope N_scope.\n\n")
+	c.p("From Coq Require Import NArith ZArith List String.\nFrom FitV Require Import Model.Values.\nImport ListNotations.\nLocal Open Scope N_scope.\n\n")
 	known := fit.VerifKnownMsgNums()
 	var kl []int
 	for k, v := range known {
